@@ -340,7 +340,8 @@ pub const ADV64: &[u64] = &[
     0x3e112e0be826d695, // 1e-9 (DIST_MIN_PROBABILITY)
     0x3e112e0be826d694, // 1e-9 - ulp
     0x3e112e0be826d696, // 1e-9 + ulp
-    0x48a7935a0b8ed5e0, // about 1e42
+    0x48a6f578c4e0a061, // 1e42
+    0x48a6f578c4e0a062, // 1e42 + ulp
 ];
 
 pub const ADV32: &[u32] = &[
